@@ -83,7 +83,7 @@ _CMP = {
 _SAFE_METHODS = {
     "list": ("append", "insert", "extend", "index", "count", "copy", "pop", "sort", "reverse", "remove", "clear"),
     "dict": ("items", "keys", "values", "get", "copy", "update", "setdefault", "pop", "clear"),
-    "str": ("encode", "split", "rsplit", "startswith", "endswith", "strip", "join", "format", "lower", "upper", "replace", "count", "isascii", "isdigit", "isalpha", "isidentifier", "isprintable", "lstrip", "rstrip", "find", "rfind", "partition", "rpartition", "splitlines", "zfill"),
+    "str": ("islower", "isupper", "istitle", "isspace", "isalnum", "isdecimal", "isnumeric", "title", "capitalize", "casefold", "swapcase", "removeprefix", "removesuffix", "expandtabs", "center", "ljust", "rjust", "encode", "split", "rsplit", "startswith", "endswith", "strip", "join", "format", "lower", "upper", "replace", "count", "isascii", "isdigit", "isalpha", "isidentifier", "isprintable", "lstrip", "rstrip", "find", "rfind", "partition", "rpartition", "splitlines", "zfill"),
     "bytes": ("decode", "startswith", "endswith"),
     "tuple": ("index", "count"),
     "int": ("to_bytes", "bit_length"),
@@ -150,6 +150,8 @@ def _as_iterable(seq):
         return list(seq)
     if isinstance(seq, (dict, set, frozenset)):
         return list(seq)
+    if hasattr(seq, "sa_iter"):
+        return _as_iterable(seq.sa_iter())
     return None
 
 
@@ -213,6 +215,11 @@ class Evaluator:
         return v
 
     def _ev(self, e: ast.AST) -> Any:
+        if isinstance(e, ast.GeneratorExp):
+            # evaluated eagerly (the evaluator's fragment has no effects a lazy generator could interleave with), but handed out
+            # as Python hands it out: a one-shot iterator - a second consumer finds it empty
+            items = self._ev(ast.copy_location(ast.ListComp(elt=e.elt, generators=e.generators), e))
+            return PyIter(items, "generator expression")
         if isinstance(e, ast.Constant):
             return e.value
         if isinstance(e, ast.Name):
@@ -427,6 +434,8 @@ class Evaluator:
             fn = e.func
             if isinstance(fn, ast.Name) and fn.id == "sum" and len(e.args) == 1 and fn.id not in self.env:
                 vals = self.ev(e.args[0])
+                if isinstance(vals, PyIter):
+                    vals = list(vals)
                 if isinstance(vals, (list, tuple)) and all(isinstance(v, (int, bool)) for v in vals):
                     return sum(int(v) for v in vals)
                 raise Unsupported("sum over non-integers")
@@ -502,6 +511,8 @@ class Evaluator:
                 kw = {k.arg: self.ev(k.value) for k in e.keywords}
                 if fn.id in ("max", "min") and len(args) == 1 and hasattr(args[0], "sa_" + fn.id):
                     return getattr(args[0], "sa_" + fn.id)(**kw)
+                if len(args) == 1 and hasattr(args[0], "sa_iter"):
+                    args = [_as_iterable(args[0])]  # an object with an interpreted __iter__
                 if fn.id in ("max", "min"):
                     seq = list(args[0]) if len(args) == 1 else list(args)
                     if not seq:
@@ -632,6 +643,14 @@ class Evaluator:
             same = l is r
             return same if isinstance(op, ast.Is) else not same
         if isinstance(op, (ast.In, ast.NotIn)):
+            if isinstance(r, PyIter):
+                # `x in <iterator>` advances the iterator up to and including the first match, like Python
+                res = False
+                for item in r:
+                    if item is l or self._eq(item, l):
+                        res = True
+                        break
+                return res if isinstance(op, ast.In) else not res
             if isinstance(r, (tuple, list, str)):
                 res = any(x is l or self._eq(x, l) for x in r) if not isinstance(r, str) else (l in r)
                 return res if isinstance(op, ast.In) else not res
